@@ -26,12 +26,12 @@ from vf import mjxload
 from vf import modelgen as mg
 from vf.runner import Violation
 
-# (A) tolerances: norm-wise relative error per leaf, max|a-b| / (1 + max|a|,|b|).  jit vs eager differ by fusion and
-# re-association only; quantities downstream of the iterative solver (60 Newton iterations, tolerance 0) amplify the
-# rounding differences through the line search.  Calibrated on the unchanged tree (seeds 1-3 quick + thorough): worst
-# smooth 3e-15, worst solver-dependent 2e-10 -> ~100x.
+# (A) tolerances: norm-wise relative error per leaf, max|a-b| / (1 + max|a|,|b|).  jit, vmap and eager evaluations differ
+# by fusion / re-association only; quantities downstream of the iterative solver amplify those rounding differences
+# through the line search.  Calibrated on the unchanged tree (quick seeds 1-3 + thorough): worst smooth 3.7e-15, worst
+# solver-dependent 1.1e-9 -> fixed at ~100x.
 TOL_A = 1e-12
-TOL_A_SOLVER = 5e-8
+TOL_A_SOLVER = 1e-7
 SOLVER_LEAVES = ('qacc', 'qfrc_constraint', 'efc_force', 'qacc_warmstart', 'qvel', 'qpos', 'sensordata', 'solver_niter',
                  'cacc', 'cfrc_int', 'cfrc_ext', 'act', 'time', 'qfrc_inverse', 'xpos', 'xquat', 'xmat', 'xipos', 'ximat',
                  'xanchor', 'xaxis', 'geom_xpos', 'geom_xmat', 'site_xpos', 'site_xmat', 'cam_xpos', 'cam_xmat',
